@@ -236,7 +236,10 @@ CreateJudge(s, e) ==
            must == RejectClauses("Create", F2, c) IN
        IF must # {}
        THEN IF e.ok THEN must
-            ELSE F1("Create.RejectionNotCIMError", IsRejection(e))
+            ELSE F1(IF SigChange(F2, c)
+                    THEN "Create.NeitherAcceptedNorRejectedByCIMError." \o
+                         UndecidedText(F2, c)
+                    ELSE "Create.RejectionNotCIMError", IsRejection(e))
        ELSE IF Undecided(F2, c)
        THEN F1("Create.NeitherAcceptedNorRejectedByCIMError." \o
                   UndecidedText(F2, c), e.ok \/ IsRejection(e))
@@ -253,7 +256,10 @@ ModifyJudge(s, e) ==
            busy == Children(F, c) # {} \/ HasInst(s, c) IN
        IF must # {}
        THEN IF e.ok THEN must
-            ELSE F1("Modify.RejectionNotCIMError", IsRejection(e))
+            ELSE F1(IF SigChange(F2, c)
+                    THEN "Modify.NeitherAcceptedNorRejectedByCIMError." \o
+                         UndecidedText(F2, c)
+                    ELSE "Modify.RejectionNotCIMError", IsRejection(e))
        ELSE IF Undecided(F2, c)
        THEN F1("Modify.NeitherAcceptedNorRejectedByCIMError." \o
                   UndecidedText(F2, c), e.ok \/ IsRejection(e))
